@@ -68,9 +68,7 @@ def h_latch(params, vals, ctx):
     for k in ("S1", "S2", "S3"):
         require(0 <= vals[k] <= 3)
         sevs.append(concretize(vals[k]))
-    for k, n in (("W", len(CH.WARNING_SELECTIONS)), ("F", 2), ("L", 2)):
-        require(0 <= vals[k] < n)
-    w, f, lst = concretize(vals["W"]), concretize(vals["F"]), concretize(vals["L"])
+    w, f, lst = params["w"], params["f"], params["lst"]
     kw = {}
     if selector == "o":
         kw["outfile"] = "/w/out/o.bin"
@@ -166,8 +164,8 @@ def _cat():
         ("sob", "sob r1, .+{V}\n", lambda v: (v - 2) % 2 == 1 or not (-126 <= v - 2 <= 0), big),
         ("div-zero", "X = 10 / {V}\n.word 1\n", lambda v: v == 0, big),
         ("mod-zero", "X = 10 % {V}\n.word 1\n", lambda v: v == 0, big),
-        ("shl-neg", "X = 1 << {V}\n.word 1\n", lambda v: v < 0, ("le", 8)),
-        ("shr-neg", "X = 1 >> {V}\n.word 1\n", lambda v: v < 0, ("le", 8)),
+        ("shl-neg", "X = 1 << {V}\n.word 1\n", lambda v: v < 0, ("window", -8, 8)),
+        ("shr-neg", "X = 1 >> {V}\n.word 1\n", lambda v: v < 0, ("window", -8, 8)),
         ("odd-link", ".link {V}\n.word 1\n", lambda v: v % 2 == 1 or not (-65536 < v < 65536), big),
         ("align", ".byte 1\n.align {V}\n", lambda v: v <= 0, ("le", 8)),
         ("emt", "emt {V}\n", lambda v: not (-256 < v < 256), big),
@@ -192,7 +190,7 @@ def _cat():
         ("warn-list", ".list\n.word {V}\n", lambda v: not (-65536 < v < 65536), big),
         ("warn-legacy", "mov @r1, r0\n.word {V}\n", lambda v: not (-65536 < v < 65536), big),
         ("warn-hash", "trap #{V}\n", lambda v: not (-256 < v < 256), big),
-        ("warn-meta-typo", "word {V}\n", lambda v: not (-65536 < v < 65536), big),
+        ("warn-meta-typo", "word 5 + {V}\n", lambda v: not (-65536 < v + 5 < 65536), big),
     ]
 
 
@@ -225,7 +223,7 @@ def h_catalogue(params, vals, ctx):
         return ast
 
     text = text_inj if ctx.route == "inject" else text_txt
-    kw = dict(outfile="/w/out/o.bin", lst=True)
+    kw = dict(outfile="/w/out/o.bin", lst=False)  # no listing: it would render the symbolic value with oct() (realised)
     base_run = CH.run_cli([SRC], {SRC: text}, report_format="graphical", warnings=None, parse_fn=parse_fn, **kw)
     var_run = CH.run_cli([SRC], {SRC: text}, report_format=CH.FORMATS[f], warnings=CH.WARNING_SELECTIONS[w], parse_fn=parse_fn, **kw)
     ctx.observe(base_run.exit, base_run.writes, var_run.exit, var_run.writes, base_run.crash)
@@ -238,23 +236,31 @@ def h_catalogue(params, vals, ctx):
             if not (r.exit == 1 and r.writes == []):
                 return False
         else:
-            if r.exit is not None or len(r.writes) != 2:
+            if r.exit is not None or len(r.writes) != 1:
                 return False
-            if r.writes[0][0] != "/w/out/o.bin" or r.writes[1][0] != "/w/out/o.lst":
+            if r.writes[0][0] != "/w/out/o.bin":
                 return False
     if not bad:
         # bytes and files identical whatever the warning selection and report format
-        if not (base_run.writes[0][2] == var_run.writes[0][2] and base_run.writes[1][2] == var_run.writes[1][2]):
+        if not (base_run.writes[0][2] == var_run.writes[0][2]):
             return False
     return True
 
 
 def obligations(tier, seed):
     obs = []
+    k = 0
     for sel in ("none", "o", "o-raw", "implicit", "make"):
-        obs.append(Ob(oid=f"latch/{sel}", harness=P + "h_latch", params={"selector": sel},
-                      vars={"S1": "int", "S2": "int", "S3": "int", "W": "int", "F": "int", "L": "int"}, timeout=1500, per_path=120,
-                      pre="3 diagnostics of any severity x 5 -W selections x 2 formats x --lst"))
+        for w in range(len(CH.WARNING_SELECTIONS)):
+            for f in (0, 1):
+                for lst in (0, 1):
+                    k += 1
+                    if tier == "quick" and (k + seed) % 4:
+                        continue  # quick: a seeded quarter of the configuration grid; thorough: all 100
+                    obs.append(Ob(oid=f"latch/{sel}/W{w}-{CH.FORMATS[f]}-lst{lst}", harness=P + "h_latch",
+                                  params={"selector": sel, "w": w, "f": f, "lst": lst},
+                                  vars={"S1": "int", "S2": "int", "S3": "int"}, timeout=600, per_path=120,
+                                  pre="3 diagnostics of any severity (none/warning/error/critical)"))
     obs.append(Ob(oid="exit-step", harness=P + "h_exit_step", params={}, vars={"E": "int", "SW": "int", "X": "int"}, timeout=200))
     always = {"undefined", "duplicate", "user-error", "unknown-insn", "operand-count", "parse-critical", "bad-octal", "register-value", "missing-include"}
     for c in _cat():
